@@ -1166,7 +1166,18 @@ impl<'x, 'a, 'ast> Visit<'ast> for PassA<'x, 'a> {
                     self.w.ghost(k, format!("\n assert({});\n", t), 8);
                     self.w.ghost(hi(e.then_branch.brace_token.span.open()), " proof { once__ = true; } ".into(), -7);
                 }
-                Some(true) => fatal(&format!("{}: once-true: `if !{}()` is not supported", self.w.func, name)),
+                Some(true) => {
+                    // `if !cond() { B } [else { C }]`: C runs after a true result; without an else the result is
+                    // unknown once control is past the `if`
+                    let t = self.w.clause_text(&cl, "once-true");
+                    let k = self.w.src[..lo(e.span())].rfind(|ch| ch == ';' || ch == '{' || ch == '}').map(|k| k + 1).unwrap_or(lo(e.span()));
+                    self.w.ghost(k, format!("\n assert({});\n", t), 8);
+                    match e.else_branch.as_ref().map(|(_, b)| &**b) {
+                        Some(syn::Expr::Block(b)) => self.w.ghost(hi(b.block.brace_token.span.open()), " proof { once__ = true; } ".into(), -7),
+                        Some(_) => fatal(&format!("{}: once-true: else-if after `if !{}()` is not supported", self.w.func, name)),
+                        None => self.w.ghost(hi(e.span()), " proof { once__ = arbitrary(); } ".into(), 6),
+                    }
+                }
                 None => {}
             }
         }
